@@ -5336,10 +5336,6 @@ impl PeerConnectionInner {
             return None;
         }
 
-        if self.local_description.lock().is_none() {
-            return None;
-        }
-
         let remote = self.remote_description.lock();
         let remote_desc = remote.as_ref()?;
         let remote_section = if mid.is_empty() {
